@@ -8,7 +8,6 @@
     API (exact step accounting through the public poll callback) and at script level.
 """
 import contextlib
-import inspect
 import os
 import resource
 import signal
@@ -455,7 +454,7 @@ def run_a(chk, guard_on):
     quick = chk.tier == "quick"
     # (part, examples per shard, shards, script-level every k-th, literal every k-th of those)
     plan = [("soup", 2500, 20, 4, 1), ("mut", 1500, 20, 4, 1), ("flags", 600, 8, 3, 2)] if quick else \
-           [("soup", 20000, 64, 4, 1), ("mut", 12000, 64, 4, 1), ("flags", 5000, 16, 3, 2)]
+           [("soup", 12000, 64, 4, 1), ("mut", 8000, 64, 4, 1), ("flags", 4000, 16, 3, 2)]
     tasks = []
     for part, n, shards, js_every, lit_every in plan:
         for sh in range(shards):
@@ -662,7 +661,6 @@ def b_judge(case, out):
     """-> list of (signature, expected, actual)"""
     v = []
     o = out["outcome"]
-    tag = "%s|%s" % (case["level"] + ("-T" if case.get("T") else ""), case["fam"])
     if o[0] == "skip":
         return v
     if o[0] == "exception":
@@ -878,7 +876,7 @@ def run_atheris(chk, guard_on):
         script = os.path.join(d, "fuzz.py")
         with open(script, "w", encoding="utf-8") as f:
             f.write(_ATHERIS_SRC)
-        runs = int(os.environ.get("C10_ATHERIS_RUNS", "300000"))
+        runs = 300000
         cmd = [exe, script, "-runs=%d" % runs, "-seed=%d" % (chk.seed & 0x7FFFFFFF or 1), "-max_len=160", "-timeout=30",
                "-artifact_prefix=" + d + os.sep, "-print_final_stats=1", "-verbosity=0"]
         try:
